@@ -11,6 +11,7 @@ IMPORTS = "From DtlsV Require Import Gen.GeneratedHs13 Hs.Hs13 Hs.Hs13Run."
 TAGS = ["c02", "gen", "hs13"]
 RUN_TARGET = "theories/Hs/Hs13Run.vo"
 SITE = "internal/handshake fsm13.go (DTLS 1.3 handshake state machine)"
+MAX_EVENTS = 6000
 
 
 # ---------------------------------------------------------------- traces -> Coq terms
@@ -317,13 +318,14 @@ def monitor_cookie(c):
 
 # ---------------------------------------------------------------- legs
 
-def _prove(chk, prop, found):
+def _prove(chk, prop, found, regenerate=True):
     """build Properties/<prop>.vo + the acceptance functions; returns True when the theorems check"""
-    okg, detail = vlib.regenerate()
-    if not okg:
-        if not found:
-            chk.broken("Gen/GeneratedHs13.v could not be regenerated from /repo", detail)
-        return False
+    if regenerate:
+        okg, detail = vlib.regenerate()
+        if not okg:
+            if not found:
+                chk.broken("Gen/GeneratedHs13.v could not be regenerated from /repo", detail)
+            return False
     bad = vlib.coq_audit()
     if bad:
         chk.broken("coq-audit: forbidden construct in development", "\n".join(bad))
@@ -362,7 +364,7 @@ def _harness(chk, test, seed_off, what):
     return cases, found
 
 
-def _leg(chk, prop, leg, test, seed_off, monitor, monitor_name, rule):
+def _leg(chk, prop, leg, test, seed_off, monitor, monitor_name, rule, regenerate=True):
     cases, found = _harness(chk, test, seed_off, leg)
     F = flight_size(cases)
     reported = set()
@@ -377,7 +379,17 @@ def _leg(chk, prop, leg, test, seed_off, monitor, monitor_name, rule):
                                 "%s [variant %s, mask %s, interval %d ms, backoff %s, silence %s until %s from #%s]" % (
                                     m, c["variant"], c["mask"], c["interval_ms"], not c["no_backoff"], c.get("silence_to") or "-",
                                     c.get("silence_until"), c.get("silence_from")), replay_of(c)) or found
-    proved = _prove(chk, prop, found)
+    # a trace far longer than anything the unchanged tree produces is not replayed (the term would not fit in coqc):
+    # it is judged by the monitors alone
+    huge = [c for c in cases if len(c["events"]) > MAX_EVENTS]
+    for c in huge[:1]:
+        m = monitor_liveness(c) or ("%d events in one handshake (limit for replay %d)" % (len(c["events"]), MAX_EVENTS))
+        found = chk.finding(SITE, {"family": "dtls13", "variant": c["variant"], "monitor": "trace too long to replay"},
+                            "%s [variant %s, mask %s, interval %d ms, backoff %s, silence %s until %s from #%s]" % (
+                                m, c["variant"], c["mask"], c["interval_ms"], not c["no_backoff"], c.get("silence_to") or "-",
+                                c.get("silence_until"), c.get("silence_from")), dict(replay_of(c), events=len(c["events"]))) or found
+    cases = [c for c in cases if len(c["events"]) <= MAX_EVENTS]
+    proved = _prove(chk, prop, found, regenerate)
     n_bad = 0
     if proved or getattr(chk, "hs13_proof_error", None) is None:
         okm, mo = vlib.coq_make([RUN_TARGET, "theories/Gen/GeneratedHs13.vo"])
@@ -416,28 +428,31 @@ def _leg(chk, prop, leg, test, seed_off, monitor, monitor_name, rule):
     return {"cases": len(cases), "mismatches": n_bad, "found": found, "proved": proved}
 
 
-def run_c02(chk):
+def run_c02(chk, regenerate=True):
     """C02, DTLS 1.3 leg: theorems Properties/C02hs13.v + replay of fault-mask traces + completion monitor.
     Does not call chk.prove / chk.finish."""
     return _leg(chk, "C02hs13", "hs13_masks", "^TestVerifHs13Masks$", 1302, monitor_liveness, "completion",
                 "8 DTLS 1.3 variants (HelloRetryRequest for the cookie, HRR that changes the group, no HRR, client auth, "
-                "MTU 300/120); masks = action per emitted datagram (pass/drop/dup/hold:k): every single fault over the first 14 "
-                "datagrams on every variant, every mask over the first 3 (thorough: 5) datagrams on the two base variants, seeded "
-                "random longer masks; every trace replayed through the Coq model. Non-trivial = at least one fault.")
+                "MTU 300/120); masks = action per emitted datagram (pass/drop/dup/hold:k/late:ms): every single fault over the "
+                "first 14 datagrams on every variant, every mask over the first 3 (thorough: 5) datagrams and every pair of "
+                "drop/delay faults over the first 10 (14) on the two base variants, overtaken datagrams followed by a loss, seeded "
+                "random longer masks; every trace replayed through the Coq model. Non-trivial = at least one fault.",
+                regenerate=regenerate)
 
 
-def run_c17(chk):
+def run_c17(chk, regenerate=True):
     """C17, DTLS 1.3 leg: theorems Properties/C17hs13.v + replay of timed traces + discipline monitors."""
     return _leg(chk, "C17hs13", "hs13_timed", "^TestVerifHs13Timed$", 1317, monitor_discipline, "discipline",
                 "initial interval 10 ms / 250 ms / 1 s / 40 s, backoff on/off; every datagram towards one side or both dropped "
                 "from datagram #k on for up to 300 s (interval law up to the 60 s cap; the other side sees only stale flights: "
                 "emission bound), bursts delivered in reverse order, fault masks under non-default timers; replayed with "
-                "virtual timestamps. Non-trivial = a fault, a silence or a reversal.")
+                "virtual timestamps. Non-trivial = a fault, a silence or a reversal.", regenerate=regenerate)
 
 
-def run_c13(chk):
+def run_c13(chk, regenerate=True):
     """C13, DTLS 1.3 leg: theorems Properties/C13hs13.v + replay of HelloRetryRequest-phase traces + cookie monitor."""
     return _leg(chk, "C13hs13", "hs13_cookie", "^TestVerifHs13Cookie$", 1313, monitor_cookie, "cookie-exchange",
                 "every mask over the first 3 (thorough: 5) datagrams (ClientHello fragments, HelloRetryRequest, second "
                 "ClientHello) on 7 variants, client cut off for up to 70 s (server sees repeated first ClientHellos only), "
-                "intervals 10 ms / 250 ms / 1 s with and without backoff, reversed bursts, seeded random masks.")
+                "intervals 10 ms / 250 ms / 1 s with and without backoff, reversed bursts, seeded random masks.",
+                regenerate=regenerate)
